@@ -38,7 +38,7 @@ def run(ctx):
                  "sub-decay mapping; exact Fraction branching fractions compared exactly, floats to 1e-12; non-trivial = "
                  "distinct (chain, stable set) with >= 2 decaying particles below the mother actually replaced")
     batch = Batch(ctx["driver_ok"])
-    max_exh = 4 if tier == "quick" else 6
+    max_exh = 4 if tier == "quick" else 5
     n_random = 300 if tier == "quick" else 4000
 
     def one(dc, stable, label, perm=None, raw=None):
@@ -113,6 +113,8 @@ def run(ctx):
         n_exh += 1
         if tier == "quick" and len(spec) == 4 and n_exh % 3:
             continue
+        if tier != "quick" and len(spec) == 5 and n_exh % 4 != seed % 4:
+            continue        # five decaying particles with multiplicities up to 3: one shape in four per run (62 208 shapes in all)
         dc = build_chain(spec, rng, exact=True, with_meta=False)
         intact = True
         for st in stable_sets(dc, rng, all_if=4 if tier == "quick" else 6):
@@ -120,7 +122,7 @@ def run(ctx):
                 intact = False
                 break
         # every permutation of the mapping (small cases)
-        if intact and len(spec) <= (4 if tier == "quick" else 5):
+        if intact and (len(spec) <= 4 or (tier != "quick" and len(spec) == 5 and n_exh % 32 == seed % 32)):
             snap0 = canon_json([[k, mode_canon_py(v)] for k, v in dc.decays.items()])
             base = dc.flatten()
             for perm in itertools.permutations(list(dc.decays.items())):
